@@ -60,7 +60,8 @@ def judge(op, impl, model):
         m = re.search(r"usql=\d+ (\S+) graph=", v)
         return "reject sql-runtime-error:%s %s" % (_rt_class(m.group(1) if m else v), " ".join(w[1:])[:1200].replace(" ", "_"))
     if w[0] == "sql-typing":
-        return "reject sql-type-error:%s %s" % (re.sub(r"[^a-z=<>!]+", "-", w[1].lower())[:50].strip("-"), " ".join(w[1:])[:600].replace(" ", "_"))
+        cls = re.sub(r"[^a-z]+", "-", re.sub(r"comparison_\S+_between", "comparison_between", w[1].lower()))[:60].strip("-")
+        return "reject sql-type-error:%s %s" % (cls, " ".join(w[1:])[:600].replace(" ", "_"))
     if w[0] == "sql-name":
         return "ok"                # unbound names are C03's findings (the statement does not even bind)
     if w[0] == "bad-op":
@@ -182,7 +183,11 @@ SPEC = {
             "random queries (levels 1-5) are translated by the REAL translator; the emitted statement is evaluated by Sql.eval on encode(g) and the source query by Cy.eval on g, for the "
             "fixed graph family, seeded random graphs and (sampled cases) all graphs up to N nodes / E edges with self loops, parallel edges, multi-kind nodes, missing properties; "
             "results are compared as ordered lists under ORDER BY (tie-aware) and as bags otherwise; a difference is explained by searching the deviation switches of Cy.eval (single, "
-            "pairs, triples). non-trivial = the statement has >= 2 CTE frames or a join; distinct = distinct op lines",
+            "pairs, triples; on graphs with more than 5 edges only the switches that change the result on their own are combined). Evaluation budget: both evaluators "
+            "enumerate join products / trails naively, so queries whose MATCH patterns weigh 2 / 3 / >= 4 (relationship step 1, variable-length step 2, further pattern part 1) run only on "
+            "graphs with <= 6 edges / <= 4 edges and 4 nodes / <= 3 edges and 3 nodes; ORDER BY over paths, entity lists or collected lists and LIMIT inside ties are counted "
+            "as unmodelled (nondeterministic), not compared. thorough = 700 generated queries for each of levels 1-3, 250 for level 4, 120 for level 5, 30 random graphs and the exhaustive "
+            "family up to 3 nodes / 2 edges on every tenth query. non-trivial = the statement has >= 2 CTE frames or a join; distinct = distinct op lines",
     "expected_branches": ["translated"],
     "trusted_base": ["the meaning of SQL is a Lean definition (Sql.eval, Model/SqlEval.lean + SqlVal.lean) transcribed from the PostgreSQL 16 documentation (queries 7.x, value expressions 4.2, "
                      "functions and operators 9.x incl. jsonb operators / casts / comparison, arrays, ORDER BY NULLS LAST, LIMIT/OFFSET) and from schema_up.sql for the schema's SQL functions; "
